@@ -124,6 +124,7 @@ type ContractFile struct {
 	GhostFields []GhostField
 	Preds  map[string]*PredDef
 	Decls  []string // raw smt declarations (spec functions local to the package)
+	FileOpts map[string]string // fileopt k=v: default options of every unit of the file
 }
 
 var labelRe = regexp.MustCompile(`^([A-Za-z_][A-Za-z0-9_\-]*):\s+(.*)$`)
@@ -195,6 +196,12 @@ func ParseContractFile(path string) (*ContractFile, error) {
 		switch word {
 		case "fileprops":
 			fileProps = strings.Fields(rest)
+		case "fileopt":
+			k, v, _ := strings.Cut(rest, "=")
+			if cf.FileOpts == nil {
+				cf.FileOpts = map[string]string{}
+			}
+			cf.FileOpts[strings.TrimSpace(k)] = strings.TrimSpace(v)
 		case "func":
 			key := normKey(rest)
 			top = newProc(key, path, n)
